@@ -199,7 +199,7 @@ def _mutate(rng, tree):
 
 
 def _bundle(rng):
-    b = genb.rnd_bundle(rng, fragment=rng.choice([True, False, None]))
+    b = genb.reorder(rng, genb.rnd_bundle(rng, fragment=rng.choice([True, False, None])), free=True)
     if rng.random() < 0.25:
         b = _tricky(rng, b)
     return b
